@@ -33,3 +33,50 @@ def read_range(g, node, offset, size):
     cons = RecordingConsumer()
     b2 = g.wait(mv.read(cons, offset, size))
     return b2, cons
+
+
+# ------------------------------------------------------------------ ground truth of mutable shares
+import struct
+from allmydata.storage.server import storage_index_to_dir as _si_dir
+
+
+def parse_mutable_share(blob):
+    """independent parser: container file -> dict(fmt, seqnum, root_hash, k, N, segsize, datalen, checkstring, data)"""
+    (magic, we_nodeid, we, datalen, extra) = struct.unpack(">32s20s32sQQ", blob[:100])
+    data = blob[468:468 + datalen]
+    if len(data) < 41:
+        return {"fmt": "?", "seqnum": None, "root_hash": None, "data": data}
+    ver = data[0]
+    seqnum, root_hash = struct.unpack(">Q32s", data[1:41])
+    out = {"seqnum": seqnum, "root_hash": root_hash, "data": data, "write_enabler": we}
+    if ver == 0:
+        out["fmt"] = "SDMF"
+        (salt,) = struct.unpack(">16s", data[41:57])
+        k, N, segsize, dl = struct.unpack(">BBQQ", data[57:75])
+        out.update(k=k, N=N, segsize=segsize, datalen=dl, salt=salt, checkstring=data[:57])
+    elif ver == 1:
+        out["fmt"] = "MDMF"
+        k, N, segsize, dl = struct.unpack(">BBQQ", data[41:59])
+        out.update(k=k, N=N, segsize=segsize, datalen=dl, checkstring=data[:41])
+    else:
+        out["fmt"] = "?"
+    return out
+
+
+def mutable_shares(g, storage_index):
+    """{(server, shnum): parsed share} for every mutable share file of this SI on disk"""
+    rel = _si_dir(storage_index)
+    out = {}
+    for (sv, path), blob in g.share_files().items():
+        d, fn = path.rsplit("/", 1)
+        if d == rel and fn.isdigit():
+            out[(sv, int(fn))] = parse_mutable_share(blob)
+    return out
+
+
+def versions(shares):
+    """{(seqnum, root_hash): set(shnum)}"""
+    out = {}
+    for (sv, sh), p in shares.items():
+        out.setdefault((p["seqnum"], p["root_hash"]), set()).add(sh)
+    return out
